@@ -60,7 +60,9 @@ import (
 
 	apiext "github.com/koordinator-sh/koordinator/apis/extension"
 	schedulingv1alpha1 "github.com/koordinator-sh/koordinator/apis/scheduling/v1alpha1"
+	schedulerconfig "github.com/koordinator-sh/koordinator/pkg/scheduler/apis/config"
 	"github.com/koordinator-sh/koordinator/pkg/scheduler/frameworkext/topologymanager"
+	"github.com/koordinator-sh/koordinator/pkg/util/bitmask"
 	reservationutil "github.com/koordinator-sh/koordinator/pkg/util/reservation"
 	kit "github.com/koordinator-sh/koordinator/pkg/verifkit"
 )
@@ -86,10 +88,11 @@ const (
 var (
 	c19Once sync.Once
 	c19Pl   *Plugin
+	c19PlM  *Plugin // the same plugin built with the MostAllocated scoring strategy
 	c19Suit *pluginTestSuit
 )
 
-var c19NodeNames = []string{"n0", "n1"}
+var c19NodeNames = []string{"n0", "n1", "n2"}
 
 func c19Plugin(t *testing.T) (*Plugin, *pluginTestSuit) {
 	c19Once.Do(func() {
@@ -103,6 +106,13 @@ func c19Plugin(t *testing.T) (*Plugin, *pluginTestSuit) {
 			t.Fatalf("cannot build the deviceshare plugin: %v", err)
 		}
 		c19Pl = p.(*Plugin)
+		argsM := getDefaultArgs()
+		argsM.ScoringStrategy.Type = schedulerconfig.MostAllocated
+		pm, err := suit.proxyNew(context.TODO(), argsM, suit.Framework)
+		if err != nil {
+			t.Fatalf("cannot build the deviceshare plugin (MostAllocated): %v", err)
+		}
+		c19PlM = pm.(*Plugin)
 		c19Suit = suit
 	})
 	return c19Pl, c19Suit
@@ -139,16 +149,18 @@ func c19GenNode(r *kit.Rand, name string) *c19Node {
 	n.topo = r.Pct(55)
 	n.vf = n.topo && r.Pct(60)
 	n.gpuMem = kit.Pick(r, c19MemPool)
-	ngpu := kit.Pick(r, []int{0, 1, 2, 2, 3, 4, 4, 8})
-	nrdma := kit.Pick(r, []int{0, 0, 1, 2, 2, 4})
-	nfpga := kit.Pick(r, []int{0, 0, 0, 1, 2})
+	ngpu := kit.Pick(r, []int{0, 1, 2, 2, 3, 4, 4, 8, 8, 16})
+	nrdma := kit.Pick(r, []int{0, 0, 1, 2, 2, 4, 8})
+	nfpga := kit.Pick(r, []int{0, 0, 0, 1, 2, 4})
+	stride := int32(kit.Pick(r, []int{1, 1, 1, 1, 2, 3})) // minors may have holes
+	heteroMem := r.Pct(10)
 	if ngpu+nrdma+nfpga == 0 {
 		ngpu = 2
 	}
 	add := func(t schedulingv1alpha1.DeviceType, cnt int, firstMinor int32, res func() corev1.ResourceList) {
 		half := (cnt + 1) / 2
 		for i := 0; i < cnt; i++ {
-			d := &c19Dev{typ: t, minor: firstMinor + int32(i), res: res()}
+			d := &c19Dev{typ: t, minor: firstMinor + int32(i)*stride, res: res()}
 			d.numa = int32(i / half)
 			d.pcie = fmt.Sprintf("%d-%d", d.numa, (i%half)/2)
 			if t == c19RDMA && n.vf {
@@ -157,15 +169,23 @@ func c19GenNode(r *kit.Rand, name string) *c19Node {
 			n.devs = append(n.devs, d)
 		}
 	}
-	add(c19GPU, ngpu, 0, func() corev1.ResourceList {
-		return corev1.ResourceList{apiext.ResourceGPUCore: c19Q(100), apiext.ResourceGPUMemoryRatio: c19Q(100), apiext.ResourceGPUMemory: c19QB(n.gpuMem)}
+	add(c19GPU, ngpu, int32(kit.Pick(r, []int{0, 0, 0, 0, 1, 4})), func() corev1.ResourceList {
+		mem := n.gpuMem
+		if heteroMem {
+			mem = kit.Pick(r, c19MemPool) // GPUs of different sizes on one node
+		}
+		return corev1.ResourceList{apiext.ResourceGPUCore: c19Q(100), apiext.ResourceGPUMemoryRatio: c19Q(100), apiext.ResourceGPUMemory: c19QB(mem)}
 	})
 	add(c19RDMA, nrdma, int32(r.Range(0, 1)), func() corev1.ResourceList { return corev1.ResourceList{apiext.ResourceRDMA: c19Q(100)} })
 	add(c19FPGA, nfpga, 0, func() corev1.ResourceList { return corev1.ResourceList{apiext.ResourceFPGA: c19Q(100)} })
 	cr := &schedulingv1alpha1.Device{ObjectMeta: metav1.ObjectMeta{Name: name}}
-	for _, d := range n.devs {
+	unhealthy := -1
+	if r.Pct(10) && len(n.devs) > 1 {
+		unhealthy = r.Intn(len(n.devs)) // reported unhealthy from the start: never handed out
+	}
+	for di, d := range n.devs {
 		minor := d.minor
-		info := schedulingv1alpha1.DeviceInfo{Type: d.typ, UUID: fmt.Sprintf("%s-%s-%d", name, d.typ, d.minor), Minor: &minor, Health: true, Resources: d.res.DeepCopy()}
+		info := schedulingv1alpha1.DeviceInfo{Type: d.typ, UUID: fmt.Sprintf("%s-%s-%d", name, d.typ, d.minor), Minor: &minor, Health: di != unhealthy, Resources: d.res.DeepCopy()}
 		if n.topo {
 			info.Topology = &schedulingv1alpha1.DeviceTopology{SocketID: d.numa, NodeID: d.numa, PCIEID: d.pcie, BusID: fmt.Sprintf("0000:%02x:00.0", 16+int(d.minor))}
 		}
@@ -340,6 +360,18 @@ func c19GenRequest(r *kit.Rand, n *c19Node, pod *corev1.Pod) string {
 		_ = apiext.SetDeviceJointAllocate(pod, joint)
 	}
 	pod.Spec.Containers = []corev1.Container{{Name: "main", Resources: corev1.ResourceRequirements{Requests: reqs, Limits: reqs.DeepCopy()}}}
+	if q, ok := reqs[apiext.ResourceNvidiaGPU]; ok && q.Value() >= 2 && r.Pct(25) {
+		// the whole GPUs asked for by two containers
+		a := reqs.DeepCopy()
+		a[apiext.ResourceNvidiaGPU] = c19Q(q.Value() - 1)
+		b := corev1.ResourceList{apiext.ResourceNvidiaGPU: c19Q(1)}
+		pod.Spec.Containers = []corev1.Container{{Name: "main", Resources: corev1.ResourceRequirements{Requests: a, Limits: a.DeepCopy()}}, {Name: "side", Resources: corev1.ResourceRequirements{Requests: b, Limits: b.DeepCopy()}}}
+		class += "+2c"
+	}
+	if class == "no-device" && r.Pct(30) {
+		reqs[apiext.ResourceNvidiaGPU] = c19Q(0) // a device resource named with amount zero
+		class = "gpu-zero"
+	}
 	return class
 }
 
@@ -420,7 +452,7 @@ func c19NewObj(r *kit.Rand, seq int, n *c19Node) *c19Obj {
 	}
 	o.name = fmt.Sprintf("p%d", seq)
 	o.uid = types.UID(fmt.Sprintf("uid-p%d", seq))
-	tmpl.Namespace, tmpl.Name, tmpl.UID, tmpl.ResourceVersion = "default", o.name, o.uid, "1"
+	tmpl.Namespace, tmpl.Name, tmpl.UID, tmpl.ResourceVersion = kit.Pick(r, []string{"default", "default", "default", "default", "ns1"}), o.name, o.uid, "1"
 	o.pod = tmpl
 	return o
 }
@@ -478,6 +510,10 @@ func c19Touch(r *kit.Rand, obj interface{}) interface{} {
 	m.Labels["touched"] = m.ResourceVersion
 	if p, ok := out.(*corev1.Pod); ok && r.Bool() {
 		p.Status.Phase = corev1.PodRunning
+	}
+	if r.Pct(12) && m.DeletionTimestamp == nil {
+		ts := metav1.Unix(1700000000, 0) // terminating: still runs, still holds its devices
+		m.DeletionTimestamp = &ts
 	}
 	return out
 }
@@ -787,17 +823,21 @@ func c19PodHandler(dc *nodeDeviceCache) cache.ResourceEventHandlerFuncs {
 }
 
 func TestVerifC19DeviceRestart(t *testing.T) {
-	pl, suit := c19Plugin(t)
+	_, suit := c19Plugin(t)
 	ctx := context.TODO()
 	devIndexer := suit.koordinatorSharedInformerFactory.Scheduling().V1alpha1().Devices().Informer().GetIndexer()
-	kit.Run(t, kit.Config{Property: "C19", Unit: "device-restart", Quick: 5000, Thorough: 80000,
-		Rule: "histories of 10-60 operations on 2 nodes (0-8 GPUs, 0-4 RDMA NICs with 0-3 VFs, 0-2 FPGAs, with or without PCIe/NUMA topology) of the real deviceshare Plugin: schedule a pod or reservation (PreFilter, Filter, Reserve; whole / fractional / multi / shared GPU, memory in bytes, RDMA, FPGA, combined, joint, VF, topology scope, apply-for-all), PreBind + bind, unreserve, metadata update, terminate, delete, informer echo to the live scheduler; cut after a bind; in-flight objects unreserved; surviving objects replayed into a fresh nodeDeviceCache (Devices, then reservations, then pods; random order within a kind; 20% duplicate adds, 20% no-op updates; watch events after the snapshot); live vs replayed device summary and VF ledger compared; distinct = (object kind, request class, allocation arity per type, VF?, outcome) and (replay event kind, kind of object); non-trivial = at least two surviving allocations on one node and at least one allocation of the history that does not survive"},
+	kit.Run(t, kit.Config{Property: "C19", Unit: "device-restart", Quick: 4000, Thorough: 80000,
+		Rule: "histories of 10-120 operations on 1-3 nodes (0-16 GPUs of equal or different memory, 0-8 RDMA NICs with 0-3 VFs, 0-4 FPGAs, minors with offsets and holes, an unhealthy device, with or without PCIe/NUMA topology; LeastAllocated or MostAllocated scoring; pod names re-used, two namespaces) of the real deviceshare Plugin: schedule a pod or reservation (PreFilter, Filter, Reserve; whole / fractional / multi / shared GPU, memory in bytes, RDMA, FPGA, combined, joint, VF, topology scope, apply-for-all), PreBind + bind, unreserve, metadata update, terminate, delete, informer echo to the live scheduler; cut after a bind; in-flight objects unreserved; surviving objects replayed into a fresh nodeDeviceCache (Devices, then reservations, then pods; random order within a kind; 20% duplicate adds, 20% no-op updates; watch events after the snapshot); live vs replayed device summary and VF ledger compared; distinct = (object kind, request class, allocation arity per type, VF?, outcome) and (replay event kind, kind of object); non-trivial = at least two surviving allocations on one node and at least one allocation of the history that does not survive"},
 		func(c *kit.Case) {
 			r := c.R
 			dcL := newNodeDeviceCache()
+			pl := c19Pl
+			if r.Pct(35) {
+				pl = c19PlM
+			}
 			pl.nodeDeviceCache = dcL
-			nodes := make([]*c19Node, len(c19NodeNames))
-			for i, name := range c19NodeNames {
+			nodes := make([]*c19Node, kit.Pick(r, []int{1, 2, 2, 2, 2, 3, 3}))
+			for i, name := range c19NodeNames[:len(nodes)] {
 				nodes[i] = c19GenNode(r, name)
 				if _, exists, _ := devIndexer.GetByKey(name); exists {
 					_ = devIndexer.Update(nodes[i].cr)
@@ -829,9 +869,30 @@ func TestVerifC19DeviceRestart(t *testing.T) {
 				n := kit.Pick(r, nodes)
 				o := c19NewObj(r, seq, n)
 				seq++
+				if !o.isRsv && r.Pct(20) {
+					// the name of a pod that is gone is taken again by a new pod (new UID), as StatefulSet pods do
+					if old := pick(func(x *c19Obj) bool { return !x.isRsv && x.state == c19Deleted }); old != nil {
+						inUse := pick(func(x *c19Obj) bool {
+							return !x.isRsv && x.state != c19Deleted && x.pod.Namespace == old.pod.Namespace && x.pod.Name == old.pod.Name
+						})
+						if inUse == nil {
+							o.name = old.pod.Name
+							o.pod.Namespace, o.pod.Name = old.pod.Namespace, old.pod.Name
+							c.Count("pod_names_reused", 1)
+						}
+					}
+				}
 				objs = append(objs, o)
 				cs := framework.NewCycleState()
 				topologymanager.InitStore(cs) // done by nodenumaresource's PreFilter in a real cycle
+				if n.topo && r.Pct(12) {
+					// the NUMA affinity nodenumaresource's Filter computed for this node restricts the devices
+					bits := kit.Pick(r, [][]int{{0}, {1}, {0, 1}})
+					if m, err := bitmask.NewBitMask(bits...); err == nil {
+						topologymanager.GetStore(cs).SetAffinity(n.name, topologymanager.NUMATopologyHint{NUMANodeAffinity: m})
+						c.Count("cycles_with_numa_affinity", 1)
+					}
+				}
 				o.cs = cs
 				reject := func(stage, msg string) *c19Obj {
 					o.state = c19Rejected
@@ -958,6 +1019,9 @@ func TestVerifC19DeviceRestart(t *testing.T) {
 			}
 
 			nops := r.Range(10, 60)
+			if r.Pct(10) {
+				nops = r.Range(60, 120)
+			}
 			for op := 0; op < nops; op++ {
 				switch r.Weighted(40, 10, 6, 14, 10, 8, 8) {
 				case 0:
